@@ -76,9 +76,30 @@ func NewConstraintFromRule( //nolint:gocyclo // For now it's okay.
 	case "nullable":
 		return NewNullable(ruleValue)
 	case "regex":
-		return NewRegex(ruleValue)
+		return newRegexFromRule(ruleValue)
 	case "const":
 		return NewConst(ruleValue, nodeValue)
 	}
 	panic(lexeme.NewError(ruleNameLex, errs.ErrUnknownRule.F(str)))
+}
+
+// newRegexFromRule calls NewRegex and turns what the standard library reports for a
+// rule value that is not a string or not a regular expression (a bare error or a
+// string panic, which would surface as an error without a code) into a diagnostic.
+func newRegexFromRule(ruleValue bytes.Bytes) *Regex {
+	defer func() {
+		switch r := recover().(type) {
+		case nil:
+		case string: // regexp.MustCompile
+			panic(errs.ErrRegexInvalid.F(r))
+		case error:
+			if _, ok := r.(errs.Err); ok {
+				panic(r)
+			}
+			panic(errs.ErrIncorrectRuleValueType.F()) // the value is not a JSON string
+		default:
+			panic(r)
+		}
+	}()
+	return NewRegex(ruleValue)
 }
